@@ -75,8 +75,10 @@ pub enum Op {
     FreeExcess,
     Offload { level: usize },
     Fsync,
-    /// advance the paused clock past the deferred-dump deadline and run to quiescence
+    /// advance the paused clock by 200 s (past any deferred-dump deadline) and run to quiescence
     Tick,
+    /// advance the paused clock by 45 s (less than the minimal deferral)
+    TickShort,
     /// close + build + init
     Rst,
     /// close + build + init_lazy
@@ -217,6 +219,8 @@ pub struct KeyObs {
     pub with: Vec<(MetaId, RR)>,
     pub check_filters: Option<bool>,
     pub check_filter_maybe: bool,
+    /// answer of the storage-wide merged filter (`BloomProvider::get_filter`), None if unknown
+    pub merged_filter_maybe: Option<bool>,
 }
 
 #[derive(Debug, Clone, PartialEq, Eq, Hash, serde::Serialize, serde::Deserialize)]
@@ -438,6 +442,10 @@ impl<K: HKey> World<K> {
                 crate::ctl::with_ctl(|c| c.request_clock(Duration::from_secs(200)));
                 Outcome::Done
             }
+            Op::TickShort => {
+                crate::ctl::with_ctl(|c| c.request_clock(Duration::from_secs(45)));
+                Outcome::Done
+            }
             Op::Rst | Op::RstLazy => {
                 if let Err(e) = self.close().await {
                     return Outcome::Res(Res::Err, format!("close: {e:#}"));
@@ -494,6 +502,10 @@ impl<K: HKey> World<K> {
         }
         let check_filters = s.check_filters(&key).await;
         let check_filter_maybe = s.check_filter(&key).await == pearl::FilterResult::NeedAdditionalCheck;
+        let merged_filter_maybe = {
+            use pearl::filter::FilterTrait;
+            s.get_filter().await.map(|f| f.contains_fast(&key) == pearl::FilterResult::NeedAdditionalCheck)
+        };
         KeyObs {
             read,
             contains,
@@ -502,6 +514,7 @@ impl<K: HKey> World<K> {
             with,
             check_filters,
             check_filter_maybe,
+            merged_filter_maybe,
         }
     }
 
